@@ -15,31 +15,39 @@
    Checked:  Sound        done => the plan is valid (the very operator that judges plan.py)
              OracleAgrees done => the brute-force oracle calls the inputs resolvable
              NotesHold    a closed requirement stays satisfied
-             RobustNeverFails / RobustUpgrade / RobustReuse: inside the domain Robust (C16)
+             RobustNeverFails / RobustPolicy: inside the domain Robust (C16)
              no order of work fails and the policy clauses hold.                            *)
-EXTENDS Resolver_Worlds
+EXTENDS Resolver_Worlds, SequencesExt
 
 CONSTANT GuardReplace
 
-VARIABLES w,       \* the world (set form)
-          ts,      \* the targets (sequence of atoms)
+\* the family, converted once (TLC caches zero-arity constant definitions): states only carry an index
+FamilySeq == SetToSeq(Family)
+Worlds    == [i \in DOMAIN FamilySeq |-> WorldOfSeq(FamilySeq[i].pkgs)]
+Targets   == [i \in DOMAIN FamilySeq |-> TargetsOfSeq(FamilySeq[i].targets)]
+
+VARIABLES ci,      \* which member of the family
           kind,    \* "upgrade" | "min"
           ops,     \* the plan so far
-          fin,     \* Final(w, ops), maintained incrementally
-          inplan,  \* packages the plan names (added or replacing), still in fin
+          finI,    \* ids of Final(w, ops), maintained incrementally
+          planI,   \* ids of the packages the plan names (added or replacing) that are still in fin
           pend, sel, status
-vars == <<w, ts, kind, ops, fin, inplan, pend, sel, status>>
+vars == <<ci, kind, ops, finI, planI, pend, sel, status>>
+
+w  == Worlds[ci]
+ts == Targets[ci]
+fin    == {p \in w : p.id \in finI}
+inplan == {p \in w : p.id \in planI}
 
 TargetReq(k)      == [r |-> "target", k |-> k, p |-> "-", c |-> "-", item |-> {{ts[k]}}]
 ItemReq(p, c, it) == [r |-> "item", k |-> 0, p |-> p.id, c |-> c, item |-> it]
 ReqsOf(p) == UNION {{ItemReq(p, c, it) : it \in {i \in p.deps[c] : ~IsBlockItem(i)}} : c \in Classes}
 
-Init == /\ \E case \in Family : /\ w = WorldOfSeq(case.pkgs)
-                                /\ ts = TargetsOfSeq(case.targets)
+Init == /\ ci \in DOMAIN FamilySeq
         /\ kind \in {"upgrade", "min"}
         /\ ops = <<>>
-        /\ fin = Vdb(w)
-        /\ inplan = {}
+        /\ finI = Ids(Vdb(w))
+        /\ planI = {}
         /\ pend = {TargetReq(k) : k \in DOMAIN ts}
         /\ sel = {}
         /\ status = "run"
@@ -69,7 +77,7 @@ Close(req) ==
         /\ \A a \in alt : SatAtom(a, inplan)
         /\ sel' = sel \cup {<<z[1], z[2].id>> : z \in {y \in alt \X inplan : Matches(y[1], y[2])}}
   /\ pend' = pend \ {req}
-  /\ UNCHANGED <<w, ts, kind, ops, fin, inplan, status>>
+  /\ UNCHANGED <<ci, kind, ops, finI, planI, status>>
 
 \* take the first addable candidate for one open atom of one alternative
 Take(req) ==
@@ -78,11 +86,11 @@ Take(req) ==
         /\ CanAdd(p)
         /\ \A q \in Cands(w, a) : Before(q, p) => ~CanAdd(q)
         /\ ops' = Append(ops, OpFor(p))
-        /\ fin' = (fin \ Mates(p)) \cup {p}
-        /\ inplan' = (inplan \ Mates(p)) \cup {p}
+        /\ finI' = (finI \ Ids(Mates(p))) \cup {p.id}
+        /\ planI' = (planI \ Ids(Mates(p))) \cup {p.id}
         /\ sel' = sel \cup {<<a, p.id>>}
         /\ pend' = pend \cup (IF p.repo = "src" THEN ReqsOf(p) ELSE {})
-  /\ UNCHANGED <<w, ts, kind, status>>
+  /\ UNCHANGED <<ci, kind, status>>
 
 Stuck(req) == /\ ~SatItem(req.item, inplan)
               /\ \A alt \in req.item : \A a \in {x \in alt : ~SatAtom(x, inplan)} : \A p \in Cands(w, a) : ~CanAdd(p)
@@ -90,9 +98,9 @@ Stuck(req) == /\ ~SatItem(req.item, inplan)
 Next ==
   /\ status = "run"
   /\ \/ \E req \in pend : Close(req) \/ Take(req)
-     \/ /\ pend = {} /\ status' = "done" /\ UNCHANGED <<w, ts, kind, ops, fin, inplan, pend, sel>>
+     \/ /\ pend = {} /\ status' = "done" /\ UNCHANGED <<ci, kind, ops, finI, planI, pend, sel>>
      \/ /\ \E req \in pend : Stuck(req)
-        /\ status' = "failed" /\ UNCHANGED <<w, ts, kind, ops, fin, inplan, pend, sel>>
+        /\ status' = "failed" /\ UNCHANGED <<ci, kind, ops, finI, planI, pend, sel>>
 Spec == Init /\ [][Next]_vars
 
 TypeOK == /\ status \in {"run", "done", "failed"}
@@ -102,6 +110,5 @@ Sound == status = "done" => PlanViolations(w, SeqSet(ts), ops) = {}
 OracleAgrees == status = "done" => Resolvable(w, SeqSet(ts))
 NotesHold == \A n \in sel : SatAtom(n[1], inplan)
 RobustNeverFails == status = "failed" => ~Robust(w, SeqSet(ts))
-RobustUpgrade == (status = "done" /\ kind = "upgrade") => PolicyViolations("upgrade", w, ts, TRUE, ops) = {}
-RobustReuse   == (status = "done" /\ kind = "min") => PolicyViolations("min", w, ts, TRUE, ops) = {}
+RobustPolicy == status = "done" => PolicyViolations(kind, w, ts, TRUE, ops) = {}
 =========================================================================
